@@ -1304,11 +1304,10 @@ Lemma views_shared_example :
                 In 0 (views_of E') /\ In 0 (views_of e_views).
 Proof. vm_compute. eexists _, _. split; [reflexivity|]. split; now left. Qed.
 
-(* fields Dup does not copy *)
-Lemma dup_info_id i : a_docs i = false -> dup_info i = i.
-Proof. destruct i as [m v d docs o]. simpl. now intros ->. Qed.
-Lemma dup_info_docs_lost : exists i, dup_info i <> i.
-Proof. exists (AI [] None [] true []). discriminate. Qed.
+(* every field of an attribute is kept *)
+Lemma dup_info_id i : dup_info i = i.
+Proof. now destruct i. Qed.
+(* the field of a result type Dup does not copy *)
 Lemma dup_rt_id r : (forall x, r = Some x -> rt_ctype x = []) -> dup_rt r = r.
 Proof. destruct r as [[i c v]|]; simpl; [|reflexivity]. intro H. specialize (H _ eq_refl). simpl in H. now subst. Qed.
 Lemma dup_rt_ctype_lost : exists r, dup_rt r <> r.
